@@ -20,6 +20,9 @@ import isa
 OVERRIDE = [None]
 
 
+UBMODE = [False]
+
+
 def build_tus(cfgs, families, type_filter=None, header_extra=(), tier="quick"):
     ops.TIER = tier
     """returns list of job dicts ready for analysis"""
@@ -41,7 +44,12 @@ def build_tus(cfgs, families, type_filter=None, header_extra=(), tier="quick"):
                         continue            # several instances share one wrapper (run-time n)
                     seen.add(i.fname)
                     ws.append((i.fname, ops.wrapper_line(i), i.key(cfg, vt)))
-                tu = e3.TU(cfg, "%s.%s" % (vt.name, fam), ops.header(vt, header_extra), ws)
+                if UBMODE[0]:
+                    # E4: no UB-exploiting pass has run (always_inline + sroa only)
+                    tu = e3.TU(cfg, "%s.%s.ub" % (vt.name, fam), ops.header(vt, header_extra), ws,
+                               opt=("-O1", "-Xclang", "-disable-llvm-passes"), post="always-inline,cgscc(inline),function(sroa),cgscc(inline),function(sroa)")
+                else:
+                    tu = e3.TU(cfg, "%s.%s" % (vt.name, fam), ops.header(vt, header_extra), ws)
                 tus.append((tu, cfg, vt, fam))
 
     def b(x):
@@ -78,7 +86,7 @@ def make_ctx(vt, inst, f):
         c.argidx[nm] = k
         c.argkinds[nm] = kind
         names.append(nm)
-        if kind == "M":
+        if kind in ("M", "B"):
             rep = mask_rep(a["t"], vt)
             c.maskrep[nm] = rep
             t = mask_arg_term(k, rep, vt)
@@ -113,7 +121,7 @@ def make_ctx(vt, inst, f):
         argterms.append(t)
     if len(f["args"]) != len(inst.args):
         raise Broken("wrapper %s: IR has %d arguments, catalogue %d" % (inst.fname, len(f["args"]), len(inst.args)))
-    if inst.ret == "M":
+    if inst.ret in ("M", "B"):
         rvt = vt
         tg = getattr(inst, "target", None)
         if tg:
@@ -237,10 +245,11 @@ def analyse_job(job):
     return {"res": out, "unknown": unknown}
 
 
-def run_families(res, cfgs, families, type_filter=None, override=None, keytag=None):
+def run_families(res, cfgs, families, type_filter=None, override=None, keytag=None, ubmode=False):
     e3.ensure_tools()
     PROP[0] = res.prop
     OVERRIDE[0] = override
+    UBMODE[0] = ubmode
     jobs = build_tus(cfgs, families, type_filter, tier=res.tier)
     # identical IR across configurations is analysed once
     results = procmap(analyse_job, jobs)
@@ -257,5 +266,6 @@ def run_families(res, cfgs, families, type_filter=None, override=None, keytag=No
             unknown[u] = unknown.get(u, 0) + n
     res.extra.setdefault("unmodelled_constructs", {}).update(unknown)
     res.extra["configurations"] = [c.name for c in cfgs]
-    res.extra["translation_units"] = len(jobs)
+    res.extra["translation_units"] = res.extra.get("translation_units", 0) + len(jobs)
+    UBMODE[0] = False
     return jobs
